@@ -135,3 +135,4 @@ def run(ctx):
     expandrules.refcount_obligations(ctx, prog, 'C08')
     # use of a block after it was handed to another thread or freed (ownership rule of C12)
     c12._ownership(ctx, prog, A)
+    codecrules.unrle_walk(ctx, prog, 'C08', only=('space', 'read'))
